@@ -5,6 +5,6 @@ IDS=${@:-"C06 C07 C08 C16 C17 C13 C02 C03 C04 C05 C09 C01 C10 C11 C12"}
 cd "$(dirname "$0")/.."
 for id in $IDS; do
   echo "=== $id $(date +%H:%M:%S)"
-  ./check $id --tier $TIER --jobs ${VERIF_JOBS:-16} 2>&1 | grep -E '^(VIOLATION|KNOWN-FINDING|REFUTED|UNDECIDED)|-> exit' | head -20
+  ./check $id --tier $TIER ${VERIF_JOBS:+--jobs $VERIF_JOBS} 2>&1 | grep -E '^(VIOLATION|KNOWN-FINDING|REFUTED|UNDECIDED)|-> exit' | head -20
 done
 echo "=== done $(date +%H:%M:%S)"
